@@ -453,6 +453,11 @@ func genEngineCases(c *Ctx) []string {
 		ls = append(ls, ec.String())
 		ec.mode = "pers"
 		ls = append(ls, ec.String())
+		if i%4 == 3 {
+			// ... and with one long-lived engine that keeps its session in a persister
+			ec.mode = "lp"
+			ls = append(ls, ec.String())
+		}
 	}
 	return ls
 }
@@ -791,7 +796,29 @@ func scenSizes(c *Ctx) *eCase {
 	return ec
 }
 
-var scenarios = []func(*Ctx) *eCase{scenNewlineLast, scenDeep, scenUtf8, scenCroak, scenLang, scenReload, scenBlanks, scenWild, scenCatchRel, scenEnds, scenSizes}
+// refused inputs at the start of the history and in a row (over-long and malformed), then ordinary navigation
+func scenRefused(c *Ctx) *eCase {
+	r := c.Rng
+	ec := newScenario(0)
+	ec.node("root", "Root", GInstr{Op: "MOUT", A: "foo", B: "1"}, GInstr{Op: "MOUT", A: "bar", B: "2"}, GInstr{Op: "HALT"}, GInstr{Op: "INCMP", A: "foo", B: "1"}, GInstr{Op: "INCMP", A: "bar", B: "2"})
+	ec.node("foo", "Foo {{.val}}", GInstr{Op: "LOAD", A: "val", N: 0}, GInstr{Op: "MAP", A: "val"}, GInstr{Op: "MOUT", A: "back", B: "0"}, GInstr{Op: "HALT"}, GInstr{Op: "INCMP", A: "_", B: "0"})
+	ec.node("bar", "Bar", GInstr{Op: "MOUT", A: "back", B: "0"}, GInstr{Op: "HALT"}, GInstr{Op: "INCMP", A: "_", B: "0"})
+	ec.catchNode()
+	ec.exts = append(ec.exts, extRule{sym: "val", callIdx: -1, content: "v"})
+	bad := func() string {
+		return []string{strings.Repeat("7", 300), strings.Repeat("a", 256), "+" + strings.Repeat("4", 299), "!bad", "1\n2", " 1", "*"}[r.Intn(7)]
+	}
+	in := []string{bad()}
+	if r.Intn(2) == 0 {
+		in = append(in, bad())
+	}
+	in = append(in, "", "1", bad(), "0", "2", bad(), bad(), "0", "1")
+	ec.inputs = ins(in...)
+	ec.preferLp = true
+	return ec
+}
+
+var scenarios = []func(*Ctx) *eCase{scenNewlineLast, scenDeep, scenUtf8, scenCroak, scenLang, scenReload, scenBlanks, scenWild, scenCatchRel, scenEnds, scenSizes, scenRefused}
 
 func genScenarioCases(c *Ctx, n int) []string {
 	var ls []string
@@ -806,6 +833,10 @@ func genScenarioCases(c *Ctx, n int) []string {
 		ls = append(ls, ec.String())
 		ec.mode = "pers"
 		ls = append(ls, ec.String())
+		if ec.preferLp || i%4 == 3 {
+			ec.mode = "lp"
+			ls = append(ls, ec.String())
+		}
 	}
 	return ls
 }
